@@ -326,8 +326,9 @@ def replay_case(chk, data):
         mod = {"soft_ttl": soft, "multi_tier": tiered, "page_cache": pagec}[fam]
         runs = mod.Runs(chk)
         runs.execute(data["cfg"], data["prog"], "replay")
-        verdicts, drifts, _ = mod.validate(runs.traces, "C16_replay", open_dev(mod.DEVIATIONS))
-        name_unexplained_family(mod, runs, verdicts, open_dev(mod.DEVIATIONS), "C16_replay_name")
+        devs = open_dev(getattr(mod, "ALL_DEVS", mod.DEVIATIONS))
+        verdicts, drifts, _ = mod.validate(runs.traces, "C16_replay", devs)
+        name_unexplained_family(mod, runs, verdicts, devs, "C16_replay_name")
         mod.judge(chk, runs, verdicts, drifts)
     return chk.finish()
 
@@ -400,7 +401,7 @@ def run(tier, seed, replay=None):
     pc_jobs = pagec.submit(pool, quick)
     pc_runs = pagec.Runs(chk)
     pc_dev = sorted({e["deviation"] for e in load_known().get("open", [])
-                     if e["property"] == "C16" and e.get("deviation") in pagec.DEVIATIONS})
+                     if e["property"] == "C16" and e.get("deviation") in pagec.ALL_DEVS})
     tier_jobs = tiered.submit(pool, quick)
     tier_runs = tiered.Runs(chk)
     tier_dev = sorted({e["deviation"] for e in load_known().get("open", [])
